@@ -1,7 +1,8 @@
 (* C17 — visibility respects the view volume and occlusion: property theorems.
    Statements only; each is closed by [exact] of a lemma of coq/C17/VisibilityProofs.v. *)
 From Coq Require Import QArith List Bool.
-From Scenic Require Import C17.Vec C17.Visibility C17.VisibilityProofs C17.Grid C17.GridProofs.
+From Scenic Require Import C17.Vec C17.Visibility C17.VisibilityProofs C17.Grid C17.GridProofs C17.Angles C17.Round3Proofs.
+From Coq Require Import Permutation Qminmax.
 Import ListNotations.
 Open Scope Q_scope.
 
@@ -297,3 +298,129 @@ Example C17_windows_example :
   view_windows 4 7 2 false true (3, 0) [(-(7#2), 0)] <> None /\
   view_windows 4 2 2 false true (3, 0) [(-(7#2), 0)] = None.
 Proof. split; vm_compute; congruence. Qed.
+
+(* ================================================================== round 3 *)
+(* (8) the occlusion loop of canSee for object targets: the sequential one-occluder-at-a-time filter is the single
+   filter "blocked by no occluder of the list"; hence the verdict does not depend on the ORDER of the occluders, and
+   the survivors are the intersection of the per-occluder survivor sets (blocked rays accumulate). *)
+Theorem C17_survivors_filter :
+  forall (Ray O : Type) (target_hits : Ray -> list Q) (occ_hits : O -> Ray -> list Q) (d : Q)
+         (batch : list Ray) (occs : list O),
+  batch_survivors Ray O target_hits occ_hits d batch occs =
+  filter (fun c => forallb (fun o => negb (blocked_by Ray O occ_hits o c)) occs) (candidates Ray target_hits d batch).
+Proof. exact survivors_filter. Qed.
+Print Assumptions C17_survivors_filter.
+
+Theorem C17_survivors_permutation :
+  forall (Ray O : Type) (target_hits : Ray -> list Q) (occ_hits : O -> Ray -> list Q) (d : Q)
+         (batch : list Ray) (occs occs' : list O),
+  Permutation occs occs' ->
+  batch_survivors Ray O target_hits occ_hits d batch occs = batch_survivors Ray O target_hits occ_hits d batch occs'.
+Proof. exact survivors_perm. Qed.
+Print Assumptions C17_survivors_permutation.
+
+Theorem C17_rays_visible_permutation :
+  forall (Ray O : Type) (target_hits : Ray -> list Q) (occ_hits : O -> Ray -> list Q) (d : Q)
+         (batches : list (list Ray)) (occs occs' : list O),
+  Permutation occs occs' ->
+  rays_visible Ray O target_hits occ_hits d batches occs = rays_visible Ray O target_hits occ_hits d batches occs'.
+Proof. exact rays_visible_perm. Qed.
+Print Assumptions C17_rays_visible_permutation.
+
+Theorem C17_rays_visible_same_set :
+  forall (Ray O : Type) (target_hits : Ray -> list Q) (occ_hits : O -> Ray -> list Q) (d : Q)
+         (batches : list (list Ray)) (occs occs' : list O),
+  incl occs occs' -> incl occs' occs ->
+  rays_visible Ray O target_hits occ_hits d batches occs = rays_visible Ray O target_hits occ_hits d batches occs'.
+Proof. exact rays_visible_same_set. Qed.
+Print Assumptions C17_rays_visible_same_set.
+
+Theorem C17_survivors_intersection :
+  forall (Ray O : Type) (target_hits : Ray -> list Q) (occ_hits : O -> Ray -> list Q) (d : Q)
+         (batch : list Ray) (occs : list O) (c : Ray * Q),
+  In c (batch_survivors Ray O target_hits occ_hits d batch occs) <->
+  In c (candidates Ray target_hits d batch) /\
+  (forall o, In o occs -> In c (batch_survivors Ray O target_hits occ_hits d batch [o])).
+Proof. exact survivors_intersection. Qed.
+Print Assumptions C17_survivors_intersection.
+
+(* non-vacuity: two staggered half-walls jointly block every ray, each alone does not, in both orders; the disciplines
+   "only the last occluder counts" / "only the first occluder counts" are refuted on that instance *)
+Example C17_two_partial_occluders :
+  rays_visible nat nat toy_target_hits toy_occ_hits 10 [[0%nat; 1%nat]] [0%nat; 1%nat] = false /\
+  rays_visible nat nat toy_target_hits toy_occ_hits 10 [[0%nat; 1%nat]] [1%nat; 0%nat] = false /\
+  rays_visible nat nat toy_target_hits toy_occ_hits 10 [[0%nat; 1%nat]] [0%nat] = true /\
+  rays_visible nat nat toy_target_hits toy_occ_hits 10 [[0%nat; 1%nat]] [1%nat] = true.
+Proof. exact two_partial_occluders. Qed.
+
+Theorem C17_last_occluder_only_refuted : exists (batch : list nat) (occs : list nat),
+  batch_survivors nat nat toy_target_hits toy_occ_hits 10 batch occs = [] /\
+  survivors_last_only nat nat toy_target_hits toy_occ_hits 10 batch occs <> [].
+Proof. exact last_only_refuted. Qed.
+Print Assumptions C17_last_occluder_only_refuted.
+
+Theorem C17_first_occluder_only_refuted : exists (batch : list nat) (occs : list nat),
+  batch_survivors nat nat toy_target_hits toy_occ_hits 10 batch occs = [] /\
+  survivors_first_only nat nat toy_target_hits toy_occ_hits 10 batch occs <> [].
+Proof. exact first_only_refuted. Qed.
+Print Assumptions C17_first_occluder_only_refuted.
+
+(* (9) OrientedPoint.__init__: over-limit viewAngles are truncated component-wise to (TAU, PI) *)
+Theorem C17_truncate_angles_is_min : forall (TAU PI : Q) (a : Q * Q),
+  truncate_angles TAU PI a = (Qmin (fst a) TAU, Qmin (snd a) PI).
+Proof. exact truncate_angles_is_spec. Qed.
+Print Assumptions C17_truncate_angles_is_min.
+
+Theorem C17_truncate_within_limits : forall (TAU PI : Q) (a : Q * Q),
+  fst (truncate_angles TAU PI a) <= TAU /\ snd (truncate_angles TAU PI a) <= PI.
+Proof. exact truncate_within_limits. Qed.
+Print Assumptions C17_truncate_within_limits.
+
+Theorem C17_truncate_never_widens : forall (TAU PI : Q) (a : Q * Q),
+  fst (truncate_angles TAU PI a) <= fst a /\ snd (truncate_angles TAU PI a) <= snd a.
+Proof. exact truncate_never_widens. Qed.
+Print Assumptions C17_truncate_never_widens.
+
+Theorem C17_truncate_identity : forall (TAU PI : Q) (a : Q * Q),
+  fst a <= TAU -> snd a <= PI -> truncate_angles TAU PI a = a.
+Proof. exact truncate_identity. Qed.
+Print Assumptions C17_truncate_identity.
+
+Theorem C17_truncate_idempotent : forall (TAU PI : Q) (a : Q * Q),
+  truncate_angles TAU PI (truncate_angles TAU PI a) = truncate_angles TAU PI a.
+Proof. exact truncate_idempotent. Qed.
+Print Assumptions C17_truncate_idempotent.
+
+(* a legal vertical angle is kept WHATEVER the horizontal one is (and symmetrically) *)
+Theorem C17_truncate_vertical_kept : forall (TAU PI h v : Q),
+  v <= PI -> snd (truncate_angles TAU PI (h, v)) = v.
+Proof. exact truncate_vertical_kept. Qed.
+Print Assumptions C17_truncate_vertical_kept.
+
+Theorem C17_truncate_horizontal_kept : forall (TAU PI h v : Q),
+  h <= TAU -> fst (truncate_angles TAU PI (h, v)) = h.
+Proof. exact truncate_horizontal_kept. Qed.
+Print Assumptions C17_truncate_horizontal_kept.
+
+Theorem C17_truncate_over_limit_clamped : forall (TAU PI h v : Q),
+  (TAU < h -> fst (truncate_angles TAU PI (h, v)) == TAU) /\
+  (PI < v -> snd (truncate_angles TAU PI (h, v)) == PI).
+Proof. exact truncate_over_limit_clamped. Qed.
+Print Assumptions C17_truncate_over_limit_clamped.
+
+(* truncation does not change what is seen: the view volume of the requested angles = that of the truncated ones *)
+Theorem C17_point_visible_truncation_invariant :
+  forall (PI : Q) (atan2 : Q -> Q -> Q) (asin : Q -> Q) (norm : vec -> Q) (O : Type) (odist : O -> Q)
+         (hit : O -> vec -> list Q),
+  0 < PI -> (forall z, - (PI / 2) <= asin z /\ asin z <= PI / 2) ->
+  forall (x : xform) (c : vec) (R : option mat) (d h v : Q) (p : vec) (occs : list O),
+  point_visible PI atan2 asin norm O odist hit x c R d
+                (fst (truncate_angles (2 * PI) PI (h, v))) (snd (truncate_angles (2 * PI) PI (h, v))) p occs =
+  point_visible PI atan2 asin norm O odist hit x c R d h v p occs.
+Proof. exact point_visible_truncation_invariant. Qed.
+Print Assumptions C17_point_visible_truncation_invariant.
+
+Example C17_truncate_example :
+  truncate_angles 6 3 (7, 1) = (6, 1) /\ truncate_angles 6 3 (2, 5) = (2, 3) /\ truncate_angles 6 3 (6, 3) = (6, 3) /\
+  truncate_angles 6 3 (100, 100) = (6, 3).
+Proof. vm_compute. repeat split; reflexivity. Qed.
